@@ -375,6 +375,13 @@ Theorem C06_tj_bufsize_dims_sufficient : forall im n t p,
 Proof. exact tj_bufsize_dims_sufficient. Qed.
 Print Assumptions C06_tj_bufsize_dims_sufficient.
 
+(* (13) the result of a transform is a function of THIS call's source: every exit of tj3Transform /
+   tjTransform after jpeg_read_header goes through bailout's jpeg_abort_decompress (no early return) *)
+Theorem C06_source_tj_errpaths :
+  gen_tj_errpaths = [("tj3Transform", 0%nat, true, 1%nat); ("tjTransform", 0%nat, true, 1%nat)]%string.
+Proof. exact tj_errpaths_from_source. Qed.
+Print Assumptions C06_source_tj_errpaths.
+
 (* ---- non-vacuity ---- *)
 Example C06_ex_whole_image : whole_image ex_image 3 2.
 Proof. exact ex_image_whole. Qed.
